@@ -333,8 +333,8 @@ def cases(rng, tier):
     if not quick:
         for nrep in (1, 2, 3):
             for how in ("sequential", "async"):
-                yield dict(dim="spatial_1D", nrep=nrep, cpu=2, prog="B", ops=[["run", how], R], gstate=7, gdraws=1)
-        yield dict(dim="spatial_1D", nrep=2, cpu=16, prog="B",
+                yield dict(dim="spatial_1D", nrep=nrep, cpu=2, prog="C", ops=[["run", how], R], gstate=7, gdraws=1)
+        yield dict(dim="spatial_1D", nrep=2, cpu=16, prog="C",
                    ops=[["run", "async"], R, ["run", "sequential"], R], gstate=7, gdraws=1)
         for _ in range(60):
             nrep = rng.choice([1, 2, 3, 5, 7, 11])
